@@ -475,7 +475,11 @@ Section Store.
   Variable frows : N -> N.
   Variable fcontent : N -> Z -> N -> option N.
 
-  Definition frag_rows (f : frag) : N := match f_files f with d :: _ => frows (d_id d) | [] => 0 end.
+  (* physical rows of a fragment: the row count of its first data file that still stores a live field
+     (files holding only tombstoned fields are dropped by remove_tombstoned_data_files) *)
+  Definition live_file (d : dfile) : bool := existsb (fun x => negb (Z.eqb x (-2))) (d_fields d).
+  Definition frag_rows (f : frag) : N :=
+    match find live_file (f_files f) with Some d => frows (d_id d) | None => 0 end.
 
   (* finish_delete_update; `newdel` is the identity given to the deletion files it writes *)
   Fixpoint rewrite_dvs (init : list (frag * bool)) (existing : list (N * list N)) (aff : list addr)
@@ -728,7 +732,7 @@ Section Store.
     end.
 
   Definition remove_tombstoned (l : list frag) : list frag :=
-    map (fun f => set_files f (filter (fun d => existsb (fun x => negb (Z.eqb x (-2))) (d_fields d)) (f_files f))) l.
+    map (fun f => set_files f (filter live_file (f_files f))) l.
 
   (* Manifest::update_max_fragment_id on top of the previous manifest's stored value *)
   Definition update_maxfid (prev : option N) (frs : list frag) : option N :=
@@ -891,8 +895,9 @@ Section Store.
                                                            (* cells of `fields` in the fragments of `upd` take the
                                                               values of those files; new rows appear *)
   | ERewrite (olds : list N) (frs : list frag)             (* the rows of `olds` move into new fragments *)
-  | EAddColumns (s : schema) (frs : list frag)             (* new schema; cells of the added fields from `frs` *)
-  | EProject (s : schema)
+  | EAddColumns (added : schema) (frs : list frag)         (* fields appended to the schema; their cells from `frs` *)
+  | EProject (drop : list Z)                               (* these fields leave the schema *)
+  | EDropFrags (olds : list N)                             (* every row of these fragments disappears *)
   | EOverwrite (frs : list frag) (s : schema) (c : option cfg)
   | ERestore (old : manifest)
   | EReserve (n : N)
@@ -937,12 +942,14 @@ Section Store.
         Some (add_frags t1 (fst (assign_ids (next_id t) frs)))
     | ERewrite olds frs =>
         Some (add_frags (drop_rows t (fun f _ => memN f olds)) (fst (assign_ids (next_id t) frs)))
-    | EAddColumns s frs =>
-        Some {| t_schema := s; t_maxfid := t_maxfid t; t_config := t_config t; t_live := t_live t;
+    | EAddColumns added frs =>
+        Some {| t_schema := t_schema t ++ added; t_maxfid := t_maxfid t; t_config := t_config t; t_live := t_live t;
                 t_cell := fun f o x => if memZ x (schema_ids (t_schema t)) then t_cell t f o x
                                        else cell_at frs f o x |}
-    | EProject s =>
-        Some {| t_schema := s; t_maxfid := t_maxfid t; t_config := t_config t; t_live := t_live t; t_cell := t_cell t |}
+    | EProject drop =>
+        Some {| t_schema := filter (fun fl => negb (memZ (fst fl) drop)) (t_schema t); t_maxfid := t_maxfid t;
+                t_config := t_config t; t_live := t_live t; t_cell := t_cell t |}
+    | EDropFrags olds => Some (drop_rows t (fun f _ => memN f olds))
     | EOverwrite frs s c =>
         let news := fst (assign_ids 0 frs) in
         Some {| t_schema := s; t_maxfid := upd_maxfid_ids (t_maxfid t) (ids_of news);
@@ -970,3 +977,142 @@ Section Store.
     | ENone => Some t
     end.
 End Store.
+
+(* ------------------------------------------------------------------ operation semantics: intents *)
+(* What a writer wants, independent of any version.  `mk` computes, at a read version, the transaction the writer
+   submits, the affected rows it passes to the commit, and the row-level effect it intends. *)
+Inductive intent :=
+| IAppend (frs : list frag)
+| IDelete (rows : list addr)                              (* delete these rows (predicate already evaluated) *)
+| IDeleteAll                                               (* predicate `true`: every fragment of the read version *)
+| IUpdateRows (rows : list addr) (frs : list frag)        (* update / full-schema merge_insert: RewriteRows *)
+| IUpdateCols (targets : list (N * N)) (fields : list Z) (frs : list frag)
+                                                           (* partial-schema merge_insert: RewriteColumns; per target
+                                                              fragment the identity of the rewritten column file *)
+| IRewrite (groups : list (list N * list frag))           (* compaction: old fragment ids -> new fragments *)
+| IAddColumns (added : schema) (files : list (N * dfile)) (* add_columns: per fragment the file with the new fields *)
+| IProject (drop : list Z)                                 (* drop_columns *)
+| IOverwrite (frs : list frag) (s : schema) (c : option cfg)
+| IRestore (v : N)
+| IReserve (n : N)
+| IConfig (u : umap)
+| IReplaceData (repl : list (N * dfile))
+| ICreateIndex (newi removedi : list index).
+
+Section Semantics.
+  Variable frows : N -> N.
+  Variable fcontent : N -> Z -> N -> option N.
+  Notation frag_rows := (frag_rows frows).
+
+  (* apply_deletions / FileFragment::extend_deletions for one fragment: None = untouched,
+     Some None = every row is now deleted (fragment removed), Some (Some u) = updated fragment *)
+  Definition del_in_frag (rows : list addr) (newdel : N) (f : frag) : option (option frag) :=
+    match nodupN (rows_of rows (f_id f)) with
+    | [] => None
+    | r => let dv := unionN (dels_of f) r in
+           if N.eqb (cardN dv) (frag_rows f) then Some None else Some (Some (set_del f (Some (newdel, dv))))
+    end.
+  Definition mk_deletions (frs : list frag) (rows : list addr) (newdel : N) : list frag * list N :=
+    (flat_map (fun f => match del_in_frag rows newdel f with Some (Some u) => [u] | _ => [] end) frs,
+     flat_map (fun f => match del_in_frag rows newdel f with Some None => [f_id f] | _ => [] end) frs).
+
+  Definition tombstone (fields : list Z) (d : dfile) : dfile :=
+    {| d_id := d_id d; d_fields := map (fun x => if memZ x fields then (-2)%Z else x) (d_fields d) |}.
+  Definition rewrite_cols (frs : list frag) (targets : list (N * N)) (fields : list Z) : list frag :=
+    flat_map (fun f => match assocN (f_id f) targets with
+                       | Some nf => [set_files f (map (tombstone fields) (f_files f) ++ [{| d_id := nf; d_fields := fields |}])]
+                       | None => [] end) frs.
+
+  Definition pick_frags (frs : list frag) (ids : list N) : list frag :=
+    flat_map (fun i => match find_frag i frs with Some f => [f] | None => [] end) ids.
+
+  Definition mk (h : history) (rv : N) (i : intent) (newdel : N) : option (op * option (list addr) * effect) :=
+    match nth_man h rv with
+    | None => None
+    | Some m =>
+        let frs := m_frags m in
+        Some
+          match i with
+          | IAppend nf => (Append nf, None, EAppend nf)
+          | IDelete rows =>
+              let (upd, gone) := mk_deletions frs rows newdel in
+              (Delete upd gone, Some rows, EDelete rows)
+          | IDeleteAll => (Delete [] (ids_of frs), None, EDropFrags (ids_of frs))
+          | IUpdateRows rows nf =>
+              let (upd, gone) := mk_deletions frs rows newdel in
+              (Update gone upd nf [] (Some RewriteRows) None (schema_ids (m_schema m)), Some rows, EUpdateRows rows nf)
+          | IUpdateCols targets fields nf =>
+              let upd := rewrite_cols frs targets fields in
+              (Update [] upd nf fields (Some RewriteColumns) None [], None, EUpdateCols upd fields nf)
+          | IRewrite groups =>
+              (Rewrite (map (fun g => (pick_frags frs (fst g), snd g)) groups) [] None, None,
+               ERewrite (flat_map fst groups) (flat_map snd groups))
+          | IAddColumns added files =>
+              let nfr := map (fun f => match assocN (f_id f) files with
+                                       | Some d => set_files f (f_files f ++ [d]) | None => f end) frs in
+              (Merge nfr (m_schema m ++ added), None, EAddColumns added nfr)
+          | IProject drop =>
+              (Project (filter (fun fl => negb (memZ (fst fl) drop)) (m_schema m)), None, EProject drop)
+          | IOverwrite nf s c => (Overwrite nf s c, None, EOverwrite nf s c)
+          | IRestore v => (Restore v, None, match nth_man h v with Some old => ERestore old | None => ENone end)
+          | IReserve n => (ReserveFragments n, None, EReserve n)
+          | IConfig u => (UpdateConfig (Some u) None None [], None, EConfig (Some u))
+          | IReplaceData repl => (DataReplacement repl, None, EReplaceData repl)
+          | ICreateIndex newi removedi => (CreateIndex newi removedi, None, ENone)
+          end
+    end.
+
+  (* one writer: compute the transaction at read version s_rv, commit it on the latest version *)
+  Record step := { s_rv : N; s_int : intent; s_newdel : N }.
+  Definition run_step (h : history) (st : step) : history * option effect :=
+    match mk h (s_rv st) (s_int st) (s_newdel st) with
+    | None => (h, None)
+    | Some (o, aff, e) =>
+        match commit frows h (s_rv st) o aff (s_newdel st) with
+        | Committed h' => (h', Some e)
+        | _ => (h, None)
+        end
+    end.
+  (* commit_all: the writers commit one after the other in list order; the log keeps the effects of the committed *)
+  Fixpoint run (h : history) (sts : list step) : history * list effect :=
+    match sts with
+    | [] => (h, [])
+    | st :: r => let (h1, oe) := run_step h st in
+                 let (h2, log) := run h1 r in
+                 (h2, match oe with Some e => e :: log | None => log end)
+    end.
+  (* the serial replay of the committed effects, in commit order *)
+  Fixpoint replay (t : table) (es : list effect) : option table :=
+    match es with
+    | [] => Some t
+    | e :: r => match apply_effect frows fcontent e t with Some t' => replay t' r | None => None end
+    end.
+
+  (* ---------------------------------------------------------------- known finding classes *)
+  (* F14: an Append committing after a concurrent Merge whose schema has a non-nullable field the appended
+     fragments do not store (check_append_txn returns Ok for Merge) *)
+  Definition Known_C03_append_over_concurrent_merge_nonnull (o : op) (others : list op) : bool :=
+    match o with
+    | Append frs => existsb (fun other => match other with Merge _ s => negb (covers_nonnull s frs) | _ => false end) others
+    | _ => false
+    end.
+  (* the class as a property of a step in a history *)
+  Definition step_in_F14 (h : history) (st : step) : bool :=
+    match mk h (s_rv st) (s_int st) (s_newdel st) with
+    | Some (o, _, _) => Known_C03_append_over_concurrent_merge_nonnull o (ops_since h (s_rv st))
+    | None => false
+    end.
+End Semantics.
+
+(* ------------------------------------------------------------------ correspondence checkers *)
+Definition mkd (i : N) (fs : list Z) : dfile := {| d_id := i; d_fields := fs |}.
+Definition mkf (i : N) (files : list dfile) (d : option delfile) : frag := {| f_id := i; f_files := files; f_del := d |}.
+Definition mki (u n : N) (fs : list Z) (b : option (list N)) (v : N) (vec : bool) : index :=
+  {| i_uuid := u; i_name := n; i_fields := fs; i_bitmap := b; i_dsver := v; i_vec := vec |}.
+Definition mku (e : list (N * option N)) (r : bool) : umap := {| u_entries := e; u_replace := r |}.
+
+(* unit: TransactionRebase::try_new on the fragments of the read version, then one check_txn.
+   output: 0 Ok, 1 RetryableCommitConflict, 2 CommitConflict, 3 any other error (4 = panic: never the model's) *)
+Definition chk_verdict (i : (list frag * (op * option (list addr))) * op) (o : N) : bool :=
+  let '((read_frags, (self, aff)), other) := i in
+  N.eqb (verdict_code (fst (check_txn (try_new read_frags self aff) other))) o.
